@@ -1255,7 +1255,7 @@ package hermes
 // ---------------------------------------------------------------------------
 // C05  output records of the day loop (ghost counters count the records handed to the writers)
 // annual output day: clamped to a day of year that every year has, so each simulated year meets it exactly once
-//@ region HermesSession.Run$1#outday from "OUTDAY, OUTY := g.Datum(DAYOUT)" to "if OUTDAY > 365 {"
+//@ region HermesSession.Run$1#outday from "OUTDAY, OUTY := g.Datum(DAYOUT)" to "if OUTDAY >"
 //@   serves C05
 //@   opaque DateConverter$1
 //@   ensures everyyear: OUTDAY <= 365
